@@ -201,7 +201,8 @@ func (p *Proxy) pump(dir int, src, dst net.Conn, closeBoth func()) {
 		stop := false
 		if faulty && n > 0 && !p.Applied.Load() && f.Offset < off+int64(n) && f.Offset >= off {
 			i := int(f.Offset - off)
-			p.Applied.Store(true)
+			applied := func() { p.Applied.Store(true) }
+			// Applied is published after ActualLen (below): an observer that sees Applied must see the final length
 			switch f.Kind {
 			case BitFlip:
 				data[i] ^= 1 << (f.Bit & 7)
@@ -242,6 +243,7 @@ func (p *Proxy) pump(dir int, src, dst net.Conn, closeBoth func()) {
 				nd = append(nd, data[i+l:]...)
 				data = nd
 			}
+			applied()
 		}
 		off += int64(n)
 		if mode == ChunkCoalesce {
